@@ -88,18 +88,18 @@ def run(rep):
             if nums and nums[5] and not script:
                 broken.append({"obligation": "script-vs-single", "detail": out[-1500:]})
         tc = re.search(r"tree cases (\d+): wf (\d+)", out)
-        sc = re.search(r"script pass: (\d+) cases = (\d+) statements", out)
+        sc = re.search(r"script pass: (\d+) cases = (\d+) statements in (\d+) parser.Parse", out)
         cov = next((l for l in lines if l.startswith("coverage:")), "")
         rep.coverage.update({
             "evaluations": 2 * (int(tc.group(1)) if tc else count) + (int(sc.group(2)) if sc else 0), "distinct_nontrivial": int(tc.group(2)) if tc else 0,
             "rule": "random type trees to depth 5 over the property's constructor set with every parent/child pair covered, all argument kinds (strings with quotes, backslashes, control bytes, UTF-8, empty, "
                     "values that are NOT valid UTF-8 spelled with \\xNN, random lengths; Enum values incl. negative; numbers), six separator styles, plus token-level mutants; systematic classes: "
                     "bytes (43 invalid-UTF-8 values x 12 string positions), strlen (string lengths 0..70 and around 128/256/4096: prefix + special + tail for '' \\' \\\\ \\n \\xE9 and 2/3/4-byte characters; "
-                    "quick: one coordinate from a small set, thorough: the full 71 x 71 grid), wide (Tuple / named Tuple / Variant / Enum with 1600 (thorough: to 20000) arguments, nesting depth to 300 (1000)); "
+                    "quick: one coordinate from a small set, thorough: the full 71 x 71 grid), wide (Tuple / named Tuple / Variant / Enum with 1600 (thorough: to 12000) arguments, nesting depth to 300 (1000)); "
                     "each in CAST(x AS T) and x::T parsed alone, and once more all together as ONE script in a single Parse call (script pass, compared per statement); "
                     "distinct_nontrivial = well-formed trees compared with the spec",
             "samples": [cov[:500]] + [l[:400] for l in lines if l.startswith("extra classes") or l.startswith("script pass") or l.startswith("tree cases") or l.startswith("mutants")],
-            "script_pass": {"cases": int(sc.group(1)) if sc else 0, "statements_in_one_parse_call": int(sc.group(2)) if sc else 0, "differences": nums[5] if nums else None},
+            "script_pass": {"cases": int(sc.group(1)) if sc else 0, "statements": int(sc.group(2)) if sc else 0, "parse_calls": int(sc.group(3)) if sc else 0, "differences": nums[5] if nums else None},
             "summary": [l for l in lines if l.startswith("disagreements") or l.startswith("RESULT")],
             "trusted_base": TRUSTED,
         })
